@@ -106,6 +106,8 @@ def show_num(n) -> str:
         return f"{k}({show_num(n[1])})"
     if k == "PHI":
         return f"PHI({show_num(n[2])} | {show_num(n[3])})"
+    if k == "INIT":
+        return f"{n[1]}({show_num(n[2])}, initial={n[3]})"
     return f"?({n[1]})"
 
 
@@ -572,6 +574,11 @@ class Interp:
         # reductions
         if t[0] == "call" and is_global(t[1], *MAX_FUNCS, *MIN_FUNCS):
             op = "MAX" if t[1][1] in MAX_FUNCS else "MIN"
+            kw = dict(t[3])
+            if "initial" in kw or "where" in kw or "default" in kw:
+                extra = kw.get("initial", kw.get("default", kw.get("where")))
+                return ("INIT", op, self.num(t[2][0], c) if t[2] else ("?", "no operand"), show(extra)[:60],
+                        bool(c is not None and any(self.is_c(s, c) for s in subterms(extra))))
             if len(t[2]) == 1:
                 return (op, self.num(t[2][0], c))
             if len(t[2]) == 2 and not t[2][0][0] == "star":
